@@ -472,6 +472,25 @@ func checkFactoryFresh(p *core.Program, r *core.Report, rule, rel, factory strin
 			r.OK(rule, c, p.Pos(pos), "freshly allocated")
 		}
 	}
+	// variables the factory returns as they stand (`return created`, or a named result)
+	returnedVars := map[types.Object]bool{}
+	ast.Inspect(fi.Decl.Body, func(m ast.Node) bool {
+		if rs, ok := m.(*ast.ReturnStmt); ok && len(rs.Results) >= 1 {
+			if id, ok := ast.Unparen(rs.Results[0]).(*ast.Ident); ok && id.Name != "nil" {
+				if o := info.ObjectOf(id); o != nil {
+					returnedVars[o] = true
+				}
+			}
+		}
+		return true
+	})
+	if fi.Decl.Type.Results != nil {
+		for _, f := range fi.Decl.Type.Results.List {
+			for _, nm := range f.Names {
+				returnedVars[info.Defs[nm]] = true
+			}
+		}
+	}
 	entries, _ := factoryEntries(p, fi)
 	for _, ent := range entries {
 		switch b := ent.Body.(type) {
@@ -485,6 +504,12 @@ func checkFactoryFresh(p *core.Program, r *core.Report, rule, rel, factory strin
 			ast.Inspect(ent.Body, func(m ast.Node) bool {
 				if rs, ok := m.(*ast.ReturnStmt); ok && len(rs.Results) >= 1 {
 					judge(rs.Results[0], rs.Pos())
+				}
+				// single-exit factories: the entry assigns the variable the factory returns at its end
+				if as, ok := m.(*ast.AssignStmt); ok && len(as.Lhs) == 1 && len(as.Rhs) == 1 {
+					if id, ok := as.Lhs[0].(*ast.Ident); ok && returnedVars[info.ObjectOf(id)] {
+						judge(as.Rhs[0], as.Pos())
+					}
 				}
 				return true
 			})
